@@ -44,6 +44,9 @@ m("m01e", "C01", CONS, "        if input.output_reference not in unspent_transac
 m("m01f", "C01", CONS, "    message = transaction.signable_equivalent().serialize()\n    assert input.signature",
   "    message = Transaction(inputs=[input.signable_equivalent()], outputs=transaction.outputs).serialize()\n    assert input.signature",
   "signature covers only the input's own reference (wallet signs the same way? no: wallet unchanged)")
+m("m01g", "C01", "skepticoin/signing.py", "            vk.verify(signature.signature, message)\n            return True\n        except ecdsa.keys.BadSignatureError:\n            return False",
+  "            vk.verify(signature.signature, message)\n            globals()['_verdict'] = True\n        except ecdsa.keys.BadSignatureError:\n            globals()['_verdict'] = False\n        return globals()['_verdict']",
+  "signature verdict passed through a module-level variable (two threads)")
 # ---- C02
 m("m02a", "C02", CONS, "    if sum(output.value for output in transaction.outputs) > fees + subsidy:", "    if sum(output.value for output in transaction.outputs) > fees + subsidy + 1:",
   "reward may exceed the bound by one")
